@@ -42,6 +42,7 @@ GUARDS = [
     ("MC_Codec_guard_decloc_LawDecLocRoundTrip.cfg", "LawDecLocRoundTrip"),
     ("MC_Codec_guard_decloc_LawDecLocShape.cfg", "LawDecLocShape"),
     ("MC_Codec_guard_convert.cfg", "LawConvert"),
+    ("MC_Codec_guard_vecseq.cfg", "LawVecSeq"),
 ]
 
 NARROW_FN = {"locale": "narrow_locale", "env": "narrow", "fcppt_locale": "from_std_wstring_locale", "fcppt": "from_std_wstring"}
@@ -135,6 +136,9 @@ def classes_of(ctx, rec):
         ctx.count_class((f, rec["T"], rec["d"] == rec["d"][::-1]))
     elif f in ("nstring", "stypedef", "matrix", "box", "enum_names", "literal"):
         ctx.count_class((f, rec.get("k"), rec.get("T"), rec.get("ch"), rec.get("E"), rec.get("src")))
+    elif f == "vecseq":
+        ctx.count_class((f, rec["ch"], len(rec["items"]), rec["lead"] != [], tuple(len(x) for x in rec["seps"]),
+                         tuple((i["k"], i["T"], len(i["xs"])) for i in rec["items"])[:2]))
     elif f == "utf8":
         def cls(c):
             return 1 if c < 128 else 2 if c < 2048 else 3 if c < 65536 else 4
@@ -174,6 +178,8 @@ def function_names(rec, why):
         return [("enum_string", sorted(why), "")]
     if f == "vec":
         return [("%s_io" % rec["k"], sorted(why), "")]
+    if f == "vecseq":
+        return [("vector_dim_io_sequence", sorted(why), "")]
     return [(f, sorted(why), "")]
 
 
@@ -247,7 +253,7 @@ def judge_file(ctx, path, what, rc, out, count=True):
 
 
 def model_checks(ctx, thorough):
-    cfgs = ["MC_Codec_bytes.cfg", "MC_Codec_utf8_all.cfg" if thorough else "MC_Codec_utf8.cfg", "MC_Codec_dec.cfg"]
+    cfgs = ["MC_Codec_bytes.cfg", "MC_Codec_utf8_all.cfg" if thorough else "MC_Codec_utf8.cfg", "MC_Codec_dec.cfg", "MC_Codec_vecseq.cfg"]
     vlib.parallel(lambda c: vlib.tlc_mc(ctx, "MCCodec", c, workers=4, timeout=3000, tag="MCCodec_" + c, xmx="2g"), cfgs)
 
     def guard(g):
